@@ -29,6 +29,7 @@ def sources(chk: Check, tier: str):
              ("lexE-if", "expr-small", 3 if not thorough else 4, "{% if ", " %}a{% endif %}"),
              ("lexE-for", "expr-small", 3, "{% for i in ", " %}{{ i }}{% endfor %}"),
              ("lexE-cycle", "expr-small", 3 if not thorough else 4, "{% cycle ", ", 'b' %}"),
+             ("lexE-interp", "expr-small", 3 if not thorough else 4, "{{ 'a${ ", " }b' }}"),
              ("lexE-liquid", "expr-small", 2 if not thorough else 3, "{% liquid echo ", "\n assign y = 1 %}")]
     lines = []
     for focus, alpha, n, pre, suf in plans:
